@@ -226,6 +226,155 @@ def run_alone(cfg, stmts) -> bytes:
         return b"RAISED " + type(e).__name__.encode()
 
 
+
+def _stream_with(cfg, opts):
+    """A real stream over a GIVEN options object (so that several streams can share one)."""
+    if cfg.ig == "g":
+        enc = gser.GenericSinkTermEncoder(lookup_preset=opts.lookup_preset)
+    else:
+        from pyjelly.integrations.rdflib.serialize import RDFLibTermEncoder
+
+        enc = RDFLibTermEncoder(lookup_preset=opts.lookup_preset)
+    return core.STREAM_CLASSES[cfg.cls](encoder=enc, options=opts)
+
+
+def _drain(gen_, limit=None):
+    acc = []
+    try:
+        for i, fr in enumerate(gen_):
+            acc.append(fr.SerializeToString(deterministic=True))
+            if limit is not None and i + 1 >= limit:
+                break
+    except Exception as e:  # noqa: BLE001
+        acc.append(b"RAISED " + type(e).__name__.encode())
+    return acc
+
+
+def shared_options_cases(ctx):
+    out = []
+    r = ctx.rng
+    import rdflib as _rdflib
+
+    import fam_rdflib
+    def viol(mode, what, extra):
+        d = {"family": "WL", "mode": mode, "corresponds": True, "impl": "", "model": "", "property_violation": {"what": what}, "signature": {}}
+        d.update(extra)
+        return d
+
+    for it in range(ctx.n(25, 300)):
+        # ---- (a) generic streams sharing one SerializerOptions object
+        cfg, stmts = workload(r, it)
+        cfg.flow = None
+        cfg.frame_size = r.choice([3, 5, 250])
+        alone = run_alone(cfg, stmts)
+        if alone.startswith(b"RAISED"):
+            continue
+        opts = core.make_options(cfg)
+        hist = r.choice(["finished", "abandoned", "failed", "interleaved"])
+        other = stmts[: max(1, len(stmts) // 2)]
+        if hist == "interleaved":
+            s1, s2 = _stream_with(cfg, opts), _stream_with(cfg, opts)
+            g1, g2 = gser.stream_frames(s1, (x for x in stmts)), gser.stream_frames(s2, (x for x in other))
+            acc1, live = [], [1, 2]
+            while live:
+                w = r.choice(live)
+                try:
+                    fr = next(g1 if w == 1 else g2)
+                    if w == 1:
+                        acc1.append(fr.SerializeToString(deterministic=True))
+                except StopIteration:
+                    live.remove(w)
+                except Exception as e:  # noqa: BLE001
+                    if w == 1:
+                        acc1.append(b"RAISED " + type(e).__name__.encode())
+                    live.remove(w)
+            got = fam_encode.delimited(acc1)
+        else:
+            first = _stream_with(cfg, opts)
+            if hist == "finished":
+                _drain(gser.stream_frames(first, (x for x in other)))
+            elif hist == "abandoned":
+                _drain(gser.stream_frames(first, (x for x in other)), limit=1)
+            else:
+                bad = [tuple(list(other[0])[:1])]  # a statement with too few terms: rejected
+                _drain(gser.stream_frames(first, (x for x in list(other[:-1]) + bad)))
+            got = fam_encode.delimited(_drain(gser.stream_frames(_stream_with(cfg, opts), (x for x in stmts))))
+        ctx.report.evaluations += 1
+        ctx.report.nontrivial.add(("shared-options", it, hist))
+        ctx.report.count("C12/shared-options/" + hist)
+        if got != alone:
+            out.append(viol("shared-options-" + hist, f"a stream built from an options object that an earlier ({hist}) stream also used writes {len(got)} bytes, alone it writes {len(alone)}",
+                            {"cfg": cfg.as_json(), "stmts": [core_stmt_tok(x) for x in stmts], "history": hist}))
+        # ---- (b) the integrations' default options (options=None)
+        ar = r.choice([3, 4])
+        g = genmod.Gen(r, nprefix=2, nname=4, ndt=2)
+        st2 = fam_parse.rdf11_statements(r, g, r.choice([3, 6, 9]), ar)
+        d = fam_rdflib.build(st2, [], ar == 4)
+        try:
+            ref = d.serialize(encoding="jelly", format="jelly")
+        except Exception as e:  # noqa: BLE001
+            ref = b"RAISED " + type(e).__name__.encode()
+        # history: a default-options serialization that fails half-way (an unsupported term)
+        bad = fam_rdflib.build(st2[:2], [], ar == 4)
+        tgt = bad.get_context(_rdflib.URIRef("http://h.example/g")) if ar == 4 else bad
+        tgt.add((_rdflib.URIRef("http://h.example/s"), _rdflib.URIRef("http://h.example/p"), _rdflib.Variable("v")))
+        try:
+            bad.serialize(encoding="jelly", format="jelly")
+        except Exception:  # noqa: BLE001
+            pass
+        try:
+            again = d.serialize(encoding="jelly", format="jelly")
+        except Exception as e:  # noqa: BLE001
+            again = b"RAISED " + type(e).__name__.encode()
+        ctx.report.evaluations += 1
+        ctx.report.count("C12/default-options/after-failed")
+        if again != ref:
+            out.append(viol("default-options-after-failed", f"Graph.serialize(format='jelly') with default options writes {len(again)} bytes after another default-options serialization failed, {len(ref)} bytes before it",
+                            {"stmts": [core_stmt_tok(x) for x in st2], "dataset": ar == 4}))
+        # generic default options, after a failed one
+        def gdefault(sts):
+            return _drain(gser.flat_stream_to_frames(x for x in sts))
+
+        gref = gdefault(stmts)
+        gdefault(list(other[:-1]) + [tuple(list(other[0])[:1])])
+        gagain = gdefault(stmts)
+        ctx.report.evaluations += 1
+        if gagain != gref:
+            out.append(viol("generic-default-options-after-failed", "generic flat_stream_to_frames with default options writes other bytes after another default-options run failed",
+                            {"stmts": [core_stmt_tok(x) for x in stmts]}))
+        # two threads with default options
+        if it % 5 == 0:
+            d2 = fam_rdflib.build(fam_parse.rdf11_statements(r, g, 8, ar), [], ar == 4)
+            try:
+                ref2 = d2.serialize(encoding="jelly", format="jelly")
+            except Exception as e:  # noqa: BLE001
+                ref2 = b"RAISED " + type(e).__name__.encode()
+            res = {}
+
+            def w(i, dd):
+                try:
+                    res[i] = dd.serialize(encoding="jelly", format="jelly")
+                except Exception as e:  # noqa: BLE001
+                    res[i] = b"RAISED " + type(e).__name__.encode()
+
+            old = sys.getswitchinterval()
+            sys.setswitchinterval(1e-6)
+            try:
+                ths = [threading.Thread(target=w, args=(0, d)), threading.Thread(target=w, args=(1, d2))]
+                for t in ths:
+                    t.start()
+                for t in ths:
+                    t.join()
+            finally:
+                sys.setswitchinterval(old)
+            ctx.report.evaluations += 1
+            ctx.report.count("C12/default-options/threads")
+            if res.get(0) != ref or res.get(1) != ref2:
+                out.append(viol("default-options-threads", "two threads serializing with default options write other bytes than each alone",
+                                {"stmts": [core_stmt_tok(x) for x in st2], "dataset": ar == 4}))
+    return out
+
+
 @plan(
     "C12",
     "WL: sets of 2-4 independent workloads (generic serializers and parsers): each alone, interleaved generator-step by generator-step under "
@@ -325,6 +474,10 @@ def c12(ctx):
                 out.append({"family": "WL", "mode": "threads", "workload": i, "corresponds": True, "impl": "", "model": "",
                             "cfgs": [x.as_json() for x, _ in wls], "stmts": [[core_stmt_tok(t) for t in st] for _, st in wls],
                             "property_violation": {"what": f"workload {i} writes other bytes when run concurrently in threads than alone"}, "signature": {}})
+    # one options object (flow left to be inferred) shared by several streams, and the integrations'
+    # default options: streams created earlier (finished, abandoned half-way or failed), interleaved
+    # or concurrent must not show in a stream's bytes
+    out.extend(shared_options_cases(ctx))
     # exhaustive interleavings of two short workloads
     r2 = ctx.rng
     w0, w1 = workload(r2, 0), workload(r2, 1)
